@@ -539,6 +539,15 @@ pub fn run(_env: &Env, run: &Run) -> (Stats, Coverage) {
         owned_rule_ops(s, st);
         st.count("out:returned");
     }));
+    // diverse strings: up to 64 different accepted characters of one 64-block
+    for class in [Class::Identifier, Class::Freeform] {
+        let stairs = crate::props::rules::block_staircases(_env, class);
+        st.merge(run_family(&stairs, |s, st| {
+            let chars: Vec<char> = s.chars().collect();
+            all_ops(s, &chars, st);
+            st.count("out:returned");
+        }));
+    }
     // same-buffer histories (caches keyed by the address and length of the argument)
     {
         let hs: Vec<char> = [0x61u32, 0x6C, 0xB7, 0xE9, 0x200D, 0x94D, 0x65E5, 0x20, 0xA0].iter().map(|c| char::from_u32(*c).unwrap()).collect();
